@@ -323,6 +323,75 @@ def rule_p3(ctx, F):
                     {"function": FN})
 
 
+class DecisionMonitor(Monitor):
+    """The recompile decision is a freshness decision.  Once a branch was taken on something derived
+    from the lock file (its path, LockFile::create, exists()), the `recompile` flag may only receive
+    the result of needs_recompile or `false`: a leftover lock must never, by itself, send a caller
+    with an up-to-date library into the wait loop."""
+
+    def __init__(self, fn, rec_ids):
+        self.fn, self.rec = fn, rec_ids
+
+    def elem(self, m, pt, e, s):
+        fn = self.fn
+        for n in own_walk(e):
+            if n.get("k") == "assign" and strip(n["l"]).get("k") == "ref" and strip(n["l"])["id"] in self.rec:
+                r = strip(n["r"])
+                if r.get("k") == "ref" and r.get("id") in self.rec:
+                    continue                                  # a copy between carriers of the flag
+                txt = rsrules.inline_text(fn, r)
+                if "needs_recompile" in txt:
+                    continue
+                if r.get("k") == "int" and not r.get("v"):
+                    continue
+                if "lock_path" in txt or "LockFile" in txt:
+                    return Viol("`recompile` is computed from the lock file (`%s`)" % txt[:80], pt)
+                if m:
+                    return Viol("`recompile` is set to `%s` on a path that branched on the lock file (%s)" % (txt[:40], m), pt)
+        return m
+
+    def edge(self, m, bid, edge, cond, truth, s):
+        if cond is not None and not m:
+            txt = rsrules.inline_text(self.fn, cond)
+            # the protocol's own outcomes (won / lost the race, finished waiting) are not "consulting the lock"
+            if ("lock_path" in txt or "LockFile" in txt) and "LockFile::create(" not in txt and "wait_for_removal(" not in txt:
+                return txt[:80]
+        return m
+
+
+def rule_p4(ctx, F):
+    fn = ctx.need_fn(F, FN, "P4")
+    if not fn:
+        return
+    rec = set(fn.ids_named("recompile"))
+    if not rec:
+        rec = set(i for i in rsrules.locals_of_type(fn, "bool") if any("needs_recompile" in rsrules.inline_text(fn, d) for d in fn.defs(i) if isinstance(d, dict))) if hasattr(rsrules, "locals_of_type") else set()
+    if not rec:
+        ctx.bad("P4", "load:recompile-flag", "the recompile flag (a bool receiving needs_recompile's result) was not found in %s" % FN)
+        return
+    # carriers: the flag and every local whose value is copied into it (`?` bindings, `||` temporaries)
+    grew = True
+    while grew:
+        grew = False
+        for pt, e in fn.points():
+            for n in own_walk(e):
+                if n.get("k") == "assign" and strip(n["l"]).get("k") == "ref" and strip(n["l"])["id"] in rec:
+                    r = strip(n["r"])
+                    if r.get("k") == "ref" and r.get("dk") != "param" and r["id"] not in rec:
+                        rec.add(r["id"])
+                        grew = True
+    defs = [pt for pt, e in fn.points() for n in own_walk(e) if n.get("k") == "assign" and strip(n["l"]).get("k") == "ref" and strip(n["l"])["id"] in rec]
+    ctx.floor("definitions of the recompile flag and its carriers", len(defs), 5)
+    s = Search(fn, DecisionMonitor(fn, rec), budget=3000000)
+    v = s.run(None)
+    if v is None:
+        ctx.ok("P4", "load:recompile-is-a-freshness-decision", "the recompile flag only ever receives force/needs_recompile results; nothing derived from the lock file decides it (%d definitions, %d states)" % (len(defs), s.states),
+               sample={"function": fn.name, "definitions": [fn.loc(p) for p in defs]})
+    else:
+        ctx.bad("P4", "load:recompile-decided-by-lock-file", "%s: %s at %s — a lock file left by a killed process then makes loads of an up-to-date library wait and fail" % (FN, v.msg, fn.loc(v.pt)),
+                {"site": fn.loc(v.pt), "path": s.render_path(v.path)[-6:]})
+
+
 def run(ctx):
     ctx.config = "rust"
     F = ctx.extract.rsfacts("tree_sitter_loader")
@@ -333,6 +402,7 @@ def run(ctx):
     rule_p2b(ctx, F)
     rule_w2(ctx, F)
     rule_p3(ctx, F)
+    rule_p4(ctx, F)
     return ctx.finish(
         "Protocol-shape rules over rustc MIR of tree-sitter-loader (non-unwind edges): compile only in the Some arm of LockFile::create and never after waiting; the lock is dropped on "
         "every path out and before loading; compilers write temp_path(output) and rename only after every tool run succeeded, removing the temp file on failure; create_new / remove-on-drop / "
